@@ -3,6 +3,7 @@
 package factory
 
 import (
+	"github.com/go-kid/ioc/component_definition"
 	"github.com/go-kid/ioc/container"
 	"github.com/go-kid/ioc/container/processors"
 	"github.com/go-kid/ioc/container/support"
@@ -17,11 +18,17 @@ import (
 type vFailScanner struct {
 	failFor []bool // per component index
 	seen    []int
+	work    bool
 }
 
 func (s *vFailScanner) PostProcessDefinitionRegistry(reg container.DefinitionRegistry, component any, name string) error {
 	if v := vNodeOf(component); v != nil && s.failFor[v.idx] {
 		return errBoom
+	}
+	// a scanner that does not fail does what user scanners do: it files a property under the component's definition
+	if v := vNodeOf(component); v != nil && s.work {
+		m := reg.GetMetaOrRegister(name, component)
+		m.SetProperties(component_definition.NewProperty(nil, component_definition.PropertyTypeConfiguration, "scan", name))
 	}
 	return nil
 }
@@ -47,7 +54,7 @@ type vTagShare struct {
 func VerifC20Scan() {
 	n := nd.Param("N", 2)
 	sf := &vScanStubFactory{reg: support.DefaultDefinitionRegistry(), comps: map[string]any{}}
-	fs := &vFailScanner{}
+	fs := &vFailScanner{work: nd.Param("WORK", 0) == 1}
 	for i := 0; i < n; i++ {
 		node := &vNode{name: vNames[i], idx: i}
 		sf.comps[node.name] = node
@@ -77,6 +84,12 @@ func VerifC20Scan() {
 		nd.Cover("components sharing a tag text scanned concurrently")
 	}
 	for i := 0; i < n; i++ {
-		nd.Assert(sf.reg.GetMetaByName(vNames[i]) != nil, "C10: every component is registered whatever the schedule")
+		m := sf.reg.GetMetaByName(vNames[i])
+		nd.Assert(m != nil, "C10: every component is registered whatever the schedule")
+		if fs.work && m != nil {
+			// what the caller does next: once the scanning phase has returned - also with an error - the
+			// definitions are the caller's, no scanner is still writing to them
+			nd.Observe("properties", len(m.GetAllProperties()))
+		}
 	}
 }
